@@ -42,7 +42,7 @@ BUILT = {
  "C13": ("exploration", "runtime monitor: process-outcome / TotalAlloc / CPU monitor around a sandboxed worker fed field-targeted and random mutants of images and signatures",
          "no panic, exit, runtime abort, CPU or allocation bound breach on hostile images/signatures across all entry points",
          "bounds are linear in input size with constants fixed from the valid corpus; trusts runtime.MemStats and getrusage"),
- "C14": ("exploration", "runtime monitor: same sandboxed-worker outcome monitor per decoder entry point; termination call sites inventoried and tracked by reach (report only)",
+ "C14": ("exploration", "runtime monitor: same sandboxed-worker outcome monitor per decoder entry point (concurrent Format cases in a -race build of the worker); termination call sites inventoried and tracked by reach (report only)",
          "no crash/exit/alloc blow-up on hostile variable contents for every decoder entry point; static 'all call sites' clause only reported as reach, not decided",
          "as C13; the static clause of the property is not decided by this technique (see DESIGN.md §C14)"),
  "C15": ("fault_enumeration", "runtime monitor with exhaustive fault injection: the k-th dependency call fails for every k, per operation, through caller-side wrappers",
@@ -57,7 +57,7 @@ BUILT = {
  "C18": ("exploration", "runtime monitor: exhaustive boot-number enumeration through GetBootOrder→GetBootEntry; load options vs an independent encoder/renderer",
          "all 65536 boot numbers resolved (exhaustive); generated load options compared field by field; HD/File text form",
          "trusts internal/refdev (UEFI §10.6.1.6 / edk2 text form), afero MemMapFs"),
- "C19": ("exploration", "runtime monitor: Go race detector + result-equality oracle over repeated, permuted and concurrent read-only calls on shared objects",
+ "C19": ("exploration", "runtime monitor: Go race detector + result-equality oracle over repeated, permuted and concurrent read-only calls on shared objects, and over cold-start processes whose first library calls are concurrent",
          "all 120 orders sequentially, and G∈{2..16} goroutines on one object under -race: results equal baseline, object unchanged, zero race reports",
          "trusts the Go race detector; overlap of operations is measured, not assumed"),
 }
